@@ -5,6 +5,7 @@ import props_quant as pq
 import props_dist as pd
 import props_search as psr
 import props_lsh as pl
+import props_rest_path as prp
 
 NOTE_STORE = ('theorems are about the tile model coq/Model/{Store,Coll}.v; the model is tied to the code by running '
               'the extracted model and the implementation on the same histories and comparing every step '
@@ -63,4 +64,8 @@ def C05(tier, seed, replay):
     return pl.check('C05', tier, seed, replay)
 
 
-REGISTRY = {'C04': C04, 'C05': C05, 'C03': C03, 'C06': C06, 'C12': C12, 'C13': C13, 'C14': C14, 'C15': C15, 'C07': C07, 'C01': C01, 'C02': C02, 'C09': C09, 'C16': C16}
+def C19(tier, seed, replay):
+    return prp.check(tier, seed, replay)
+
+
+REGISTRY = {'C19': C19, 'C04': C04, 'C05': C05, 'C03': C03, 'C06': C06, 'C12': C12, 'C13': C13, 'C14': C14, 'C15': C15, 'C07': C07, 'C01': C01, 'C02': C02, 'C09': C09, 'C16': C16}
